@@ -233,6 +233,10 @@ class Program:
                 inl = Inliner(self, ref)
                 inl.run()
                 self.inlined = inl.inlined
+            from .inline import normalise_iteration
+            for fi in self.functions.values():
+                if fi.parent is None:
+                    normalise_iteration(fi.node)
 
     # ---- loading
     def _load(self) -> None:
